@@ -18,8 +18,9 @@ class Gen:
         self.max_stmts = max_stmts
         self.depth = depth
         self.features = features or {"when", "if", "while", "groups", "actions", "activate", "return", "abort",
-                                     "priority", "loop", "vars", "refs", "start", "actionmembers"}
+                                     "priority", "loop", "vars", "refs", "start", "actionmembers", "params"}
         self.nvar = 0
+        self.flow_params = {}
 
     def has(self, f):
         return f in self.features
@@ -45,8 +46,19 @@ class Gen:
         op = self.r.choice([" and ", " or "])
         return op.join(parts)
 
+    def call(self, f):
+        """The flow with arguments for its parameters (positional, named, or leaving the default)."""
+        n = self.flow_params.get(f, 0)
+        if n == 0:
+            return f
+        v1, v2 = self.r.randint(1, 2), self.r.randint(1, 2)
+        forms = ["%s %d" % (f, v1), "%s(p=%d)" % (f, v1)]
+        if n == 2:
+            forms += ["%s %d %d" % (f, v1, v2), "%s(p=%d, q=%d)" % (f, v1, v2), "%s(%d, q=%d)" % (f, v1, v2)]
+        return self.r.choice(forms)
+
     def callee(self, avail):
-        return self.r.choice(avail) if avail else None
+        return self.call(self.r.choice(avail)) if avail else None
 
     def stmts(self, indent, depth, avail, in_loop=False, n=None):
         out = []
@@ -99,7 +111,7 @@ class Gen:
                     out.append(pad + "await %s %s %s(x=%d)" % (c, self.r.choice(["or", "or", "and"]), self.r.choice(ACTIONS), self.r.randint(1, 2)))
                 elif self.has("groups") and len(avail) >= 2:
                     a, b = self.r.sample(avail, 2)
-                    out.append(pad + "await %s %s %s" % (a, self.r.choice(["and", "or"]), b))
+                    out.append(pad + "await %s %s %s" % (self.call(a), self.r.choice(["and", "or"]), self.call(b)))
                 else:
                     out.append(pad + "await %s" % c)
             elif k < 0.66 and depth > 0 and self.has("when"):
@@ -145,19 +157,34 @@ class Gen:
         nf = self.r.randint(1, self.max_flows)
         names = FLOWS[:nf]
         text = []
+        if self.has("params"):
+            # one or two parameters (the second with a default) for some flows; decided first: earlier flows call later ones
+            for f in names:
+                if self.r.random() < 0.4:
+                    self.flow_params[f] = self.r.choice([1, 2])
         for i, f in enumerate(names):
             avail = names[i + 1:]  # only later flows can be called: no recursion
             deco = ""
+            params = ""
+            if self.flow_params.get(f):
+                params = " $p" + (" $q=%d" % self.r.randint(1, 2) if self.flow_params[f] == 2 else "")
             if self.has("loop") and self.r.random() < 0.2:
                 deco = '@loop("%s")\n' % self.r.choice(["la", "lb", "NEW"])
             body = self.stmts(1, self.depth, avail)
             # every flow starts with a waiting statement so that activation cannot spin
             first = "  match " + self.ev()
-            text.append("%sflow %s\n%s\n%s\n" % (deco, f, first, "\n".join(body)))
+            if params:
+                # use the parameters: in a match pattern, in a sent event, in the return value
+                body = [("  match E2(p=$p)" if self.r.random() < 0.5 else "  send Out3(v=$p)")] + body
+                if " $q" in params and self.r.random() < 0.7:
+                    body.append("  send Out2(v=$q)")
+                if self.has("return") and self.r.random() < 0.4:
+                    body.append("  return $p")
+            text.append("%sflow %s%s\n%s\n%s\n" % (deco, f, params, first, "\n".join(body)))
         main_body = []
         for f in names[: self.r.randint(1, len(names))]:
             verbs = ["start", "start", "await"] + (["activate"] if self.has("activate") else [])
-            main_body.append("  %s %s" % (self.r.choice(verbs), f))
+            main_body.append("  %s %s" % (self.r.choice(verbs), self.call(f)))
         main_body += self.stmts(1, self.depth, names)
         main_body.append("  match Never()")
         text.append("flow main\n%s\n" % "\n".join(main_body))
